@@ -108,13 +108,20 @@ pub fn run_case(c: &Case, ctx: &mut Ctx) -> CaseResult {
     }
     // (a) function preserved, no exemption
     let out = compare_tree("reduce()", &red, &tref, &inputs, &EquivMode::exact()).map_err(|(m, d)| Failure::with(m, d))?;
-    // (e) agreement with the reference reduce model (shape, values, surviving indices)
+    // (e) agreement with the reference reduce model up to renaming of indices: same shape, same
+    // predicates and terminal functions at the same label paths ("only merges identical siblings" and
+    // "decisions whose children differ are kept" fix the result up to which sibling's index survives)
     let got = snapshot(&red);
-    if got != model {
-        let gi: Vec<usize> = got.keys().copied().collect();
-        let mi: Vec<usize> = model.keys().copied().collect();
+    fn canon(m: &BTreeMap<usize, RNodeM>, i: usize) -> String {
+        let n = &m[&i];
+        let kids: Vec<String> = n.children.iter().map(|c| c.map(|c| canon(m, c)).unwrap_or_else(|| "-".into())).collect();
+        format!("({:?}|{:?}|{})", n.value.mat, n.value.bias, kids.join(","))
+    }
+    if got.len() != model.len() || canon(&got, root) != canon(&model, root) {
         return Err(Failure::new(format!(
-            "reduce(): resulting tree differs from the reference reduction (surviving indices {gi:?}, expected {mi:?}; {} merges expected)",
+            "reduce(): resulting tree ({} nodes) differs from the reference reduction ({} nodes, {} merges expected): identical siblings left unmerged, or differing siblings merged",
+            got.len(),
+            model.len(),
             merges
         )));
     }
@@ -160,7 +167,7 @@ impl Property for C08 {
         vec!["equality of terminals is coefficient equality (AffFuncBase PartialEq)".into()]
     }
     fn cases(&self, tier: Tier) -> usize {
-        tier.pick(8000, 60_000)
+        tier.pick(12000, 60_000)
     }
     fn strategy(&self, tier: Tier) -> BoxedStrategy<Case> {
         let maxd = tier.pick(4u32, 5u32);
